@@ -24,8 +24,8 @@ RLOk  == {"RL11", "RL10"}
 RLAll == RLOk \cup {"RLbad"}
 
 (* Header-line kinds.  CLn declares Content-Length n.                      *)
-CLKinds == {"CL0", "CL1", "CL2", "CL3"}
-CLVal(h) == CASE h = "CL0" -> 0 [] h = "CL1" -> 1 [] h = "CL2" -> 2 [] h = "CL3" -> 3 [] OTHER -> 0
+CLKinds == {"CL0", "CL1", "CL2", "CL3", "CL5"}
+CLVal(h) == CASE h = "CL0" -> 0 [] h = "CL1" -> 1 [] h = "CL2" -> 2 [] h = "CL3" -> 3 [] h = "CL5" -> 5 [] OTHER -> 0
 
 (* Lines a strict recipient must refuse (RFC 9112 5, 5.2, 6.1; 9110 5.5, 5.6.2). *)
 HRejectKinds == {"CLbad",          \* non 1*DIGIT value: +1, 1_0, 0x1, "1 2", 1,1, empty, -1
@@ -96,8 +96,12 @@ FlatChunks(cs, pad) ==
        SizeLine(c.sz, pad) \o Rep(X, c.n)
          \o (IF c.term THEN <<CR, LF>> ELSE Rep(JUNK, c.junk)) \o FlatChunks(Tail(cs), 0)
 
+(* fr = "embed": a Content-Length body of 5 symbols that spells a complete request (the smuggling shape: an
+   application that ignores the body must not make the server read it as the next request) *)
+EmbeddedRequest == <<"RL11", CR, LF, CR, LF>>
 FlatBody(m) ==
   CASE m.fr = "len" -> Rep(X, m.n)
+    [] m.fr = "embed" -> EmbeddedRequest
     [] m.fr = "chunked" ->
          FlatChunks(m.chunks, m.pad.c)
            \o (IF m.last = "none" THEN <<>>
@@ -215,7 +219,7 @@ Strict(ms) == StrictFrom(ms, 0, TRUE, ProxyOn(ms))
 (* one strict reading).                                                    *)
 WellLaidOut(m) ==
   IF HeadVerdict(m) = "reject" THEN m.fr = "none"
-  ELSE /\ m.fr = HeadFraming(m)
+  ELSE /\ m.fr = HeadFraming(m) \/ (m.fr = "embed" /\ HeadFraming(m) = "len" /\ HeadCL(m) = 5)
        /\ m.fr = "len" => m.n = HeadCL(m)
        /\ m.fr = "chunked" =>
             /\ m.last \in LastOk \/ (m.last = "none" /\ ChunksRead(m.chunks, 0, <<>>, 0).v = "reject")
